@@ -83,3 +83,31 @@ func H_C03_header_bytes() {
 	}
 	vCover("end")
 }
+
+// every constructor yields a header that starts with the protocol identifier 0xFF 'S' 'M' 'B', carries the security
+// features interpretation its name says, and is otherwise zero
+func H_C03_header_constructors() {
+	var h *Header
+	switch vParam("ctor") {
+	case 0:
+		h = NewHeader()
+	case 1:
+		h = NewHeaderWithSecurityFeaturesConnectionLess()
+		_, ok := h.SecurityFeatures.(*securityfeatures.SecurityFeaturesConnectionlessTransport)
+		vCheck(ok, "C03/header/ctor/connectionless-interpretation")
+	default:
+		h = NewHeaderWithSecurityFeaturesSecuritySignature()
+		_, ok := h.SecurityFeatures.(*securityfeatures.SecurityFeaturesSecuritySignature)
+		vCheck(ok, "C03/header/ctor/signature-interpretation")
+	}
+	raw, err := h.Marshal()
+	vCheck(err == nil && len(raw) == 32, "C03/header/ctor/size-32")
+	if err != nil || len(raw) != 32 {
+		return
+	}
+	vCheck(raw[0] == 0xFF && raw[1] == 'S' && raw[2] == 'M' && raw[3] == 'B', "C03/header/ctor/protocol-identifier")
+	for i := 14; i < 24; i++ {
+		vCheck(raw[i] == 0, "C03/header/ctor/security-features-and-reserved-zero")
+	}
+	vCover("end")
+}
